@@ -34,6 +34,7 @@ structure Cfg where
   T : Nat
   pay : Nat          -- 0 s1, 1 s3, 2 v
   vk : Nat
+  vbase : Nat
   add : Bool
   dt : Bool
   c1 : Bool
@@ -48,7 +49,7 @@ def strictNat? (s : String) (lo hi : Nat) : Option Nat :=
 def inMask (m a : Nat) : Bool := (m >>> a) % 2 == 1
 
 def blk (cfg : Cfg) (g : Int) : Nat :=
-  if cfg.pay == 0 then 1 else if cfg.pay == 1 then 3 else 1 + ((g + cfg.vk) % 3).toNat
+  if cfg.pay == 0 then 1 else if cfg.pay == 1 then 3 else cfg.vbase + ((g + cfg.vk) % 3).toNat
 
 /-- block sizes of the container belonging to an index set -/
 def blockSizes (cfg : Cfg) (s : List Entry) : List Nat :=
@@ -64,14 +65,10 @@ def mkData (r c : Nat) (bs : List Nat) : Data :=
   bs.zipIdx.map fun (b, l) => (List.range b).map fun j => { v := some (initVal r c l j) }
 
 structure RankSt where
-  c0 : Data
-  c1 : Data
-  one : Bool
+  cont : Cont Data
   out : List String := []
-  deriving Inhabited
 
-def RankSt.get (r : RankSt) (k : Nat) : Data := if k == 0 || r.one then r.c0 else r.c1
-def RankSt.set (r : RankSt) (k : Nat) (d : Data) : RankSt := if k == 0 || r.one then { r with c0 := d } else { r with c1 := d }
+instance : Inhabited RankSt := ⟨{ cont := { c0 := [], c1 := [], one := true } }⟩
 
 def gatherD (whole : Bool) (d : Data) (l j : Nat) : Val :=
   let b := d.getD l []
@@ -134,18 +131,20 @@ def parseCfg (ws : List String) : Option Cfg :=
     | some P, some ign, some S, some T =>
       let fl := flags.toList
       if fl.length != P || !fl.all (fun c => c == '0' || c == '1') then none else
-      let payk : Option (Nat × Nat) :=
-        if pay == "s1" then some (0, 0) else if pay == "s3" then some (1, 0)
-        else if pay == "v0" then some (2, 0) else if pay == "v1" then some (2, 1) else if pay == "v2" then some (2, 2) else none
+      let payk : Option (Nat × Nat × Nat) :=
+        if pay == "s1" then some (0, 0, 1) else if pay == "s3" then some (1, 0, 1)
+        else if pay == "v0" then some (2, 0, 1) else if pay == "v1" then some (2, 1, 1) else if pay == "v2" then some (2, 2, 1)
+        else if pay == "w0" then some (2, 0, 0) else if pay == "w1" then some (2, 1, 0) else if pay == "w2" then some (2, 2, 0)
+        else none
       let add? : Option Bool := if pol == "copy" then some false else if pol == "add" then some true else none
       let dt? : Option Bool := if comm == "buf" then some false else if comm == "dt" then some true else none
       let c1? : Option Bool := if cont == "c1" then some true else if cont == "c2" then some false else none
       let rd := rounds.toList
       match payk, add?, dt?, c1? with
-      | some (pay, vk), some add, some dt, some c1 =>
+      | some (pay, vk, vbase), some add, some dt, some c1 =>
         if dt && add then none else
         if rd.isEmpty || rd.length > 6 || !rd.all (fun c => c == 'f' || c == 'b') then none else
-        some { P := P, two := fl.map (· == '1'), ign := ign == 1, S := S, T := T, pay := pay, vk := vk, add := add, dt := dt,
+        some { P := P, two := fl.map (· == '1'), ign := ign == 1, S := S, T := T, pay := pay, vk := vk, vbase := vbase, add := add, dt := dt,
                c1 := c1, rounds := rd }
       | _, _, _, _ => none
     | _, _, _, _ => none
@@ -164,7 +163,7 @@ def run (cfg : Cfg) (sets : Array (List Entry × List Entry)) : String :=
   let sz := if cfg.pay == 1 then 24 else 8
   let ranks := List.range P
   let ifs := ranks.map fun p => interfaceOf cfg.ign S T sys p
-  let raw := ranks.map fun p => buildInterfaceRaw S T (remoteSpec cfg.ign sys p)
+  let raw (p : Nat) : IfMap := rawInterfaceOf cfg.ign S T sys p
   let bsS := ranks.map fun p => blockSizes cfg (sys.rank p).src
   let bsT := ranks.map fun p => blockSizes cfg (sys.rank p).tgtSet
   let csOf (bs : List (List Nat)) (p : Nat) : Nat → Nat :=
@@ -172,7 +171,7 @@ def run (cfg : Cfg) (sets : Array (List Entry × List Entry)) : String :=
   let comm (p : Nat) : Comm := buildComm sz (csOf bsS p) (csOf bsT p) (ifs.getD p [])
   let oneC (r : Nat) : Bool := cfg.c1 && !(cfg.two.getD r false)
   let init : List RankSt := ranks.map fun r =>
-    { c0 := mkData r 0 (bsS.getD r []), c1 := mkData r 1 (bsT.getD r []), one := oneC r,
+    { cont := { c0 := mkData r 0 (bsS.getD r []), c1 := mkData r 1 (bsT.getD r []), one := oneC r },
       out := ["S " ++ showList (selection S (sys.rank r).src), showIf (ifs.getD r [])] }
   -- is the derived-datatype variant free of overlapping receive buffers?
   let useF := cfg.rounds.contains 'f'
@@ -182,29 +181,27 @@ def run (cfg : Cfg) (sets : Array (List Entry × List Entry)) : String :=
     let snd := m.flatMap (·.2.1.idx)
     let rcv := m.flatMap (·.2.2.idx)
     !(useF && hasDup rcv) && !(useB && hasDup snd) && !(oneC r && snd.any rcv.contains)
-  let showD (st : RankSt) : String :=
-    "D " ++ showData st.c0 ++ (if st.one then "" else "|" ++ showData st.c1)
+  let showD (c : Cont Data) : String :=
+    "D " ++ showData c.c0 ++ (if c.one then "" else "|" ++ showData c.c1)
   let fin : List RankSt :=
     if cfg.dt && !feasible then init.map fun st => { st with out := "skip" :: st.out } else
     cfg.rounds.foldl (init := init) fun sts dir =>
       let fwd := dir == 'f'
-      let kS := if fwd then 0 else 1
-      let kR := if fwd then 1 else 0
-      let gat (p : Nat) : Nat → Nat → Val := gatherD whole ((sts.getD p default).get kS)
+      -- the "written in this round" marks of the open-entry bookkeeping are reset; values are untouched
+      let w (p : Nat) : Cont Data :=
+        let c := (sts.getD p default).cont
+        { c with c0 := clearW c.c0, c1 := clearW c.c1 }
+      let posted (q : Nat) : List Nat := (comm q).postedRecvs fwd
       ranks.map fun q =>
         let st := sts.getD q default
-        let calls : List (Val × Nat × Nat) :=
+        let c' : Cont Data :=
           if cfg.dt then
-            let nbs := (raw.getD q []).map fun e =>
-              let theirs := (raw.getD e.1 []).get q
-              (e.1, (if fwd then theirs.1 else theirs.2), (if fwd then e.2.2 else e.2.1))
-            dtCalls ((comm q).csRecv fwd) gat (fun p => (comm p).csSend fwd) nbs
+            let gat (p : Nat) : Nat → Nat → Val := gatherD whole ((w p).get (!fwd))
+            let calls := dtCalls ((comm q).csRecv fwd) gat (fun p => (comm p).csSend fwd) (dtNeighbours raw fwd q)
+            (w q).set fwd (applyCalls (scatterD whole cfg.add) ((w q).get fwd) calls)
           else
-            let ord := (comm q).postedRecvs fwd
-            roundCallsAt comm fwd gat [] q ord ord
-        let d := applyCalls (scatterD whole cfg.add) (clearW (st.get kR)) calls
-        let st' := st.set kR d
-        { st' with out := showD st' :: st'.out }
+            worldRound comm (gatherD whole) (scatterD whole cfg.add) [] fwd posted posted w q
+        { cont := c', out := showD c' :: st.out }
   " ".intercalate (ranks.map fun r =>
     "r" ++ toString r ++ "{" ++ ";".intercalate ((fin.getD r default).out.reverse) ++ "}")
 
